@@ -45,7 +45,19 @@ def gen_unit(rng):
     if rng.random() < 0.3:
         args += ["--filter", rng.choice(["(string? .g)", "(not (null? .v))", "(< .s 7)", "(number? .n)", "false"])]
         up.append("filter")
-    if rng.random() < 0.4:
+    keycol = "g"
+    r2 = rng.random()
+    if r2 < 0.08:
+        # two selections share a name (the row holds the later one): the collected rows are the printed rows all the same
+        args += ["--select", ".k=dup", "--select", ".g=g", "--select", ".v=dup"]
+        up.append("select-dupname")
+    elif r2 < 0.16:
+        # a selected column carries the name of the member the group key is read from, with another value: the key is the
+        # input's .g (printed here as column "key"), whatever the columns are called
+        args += ["--select", ".g=key", "--select", ".v=g"]
+        keycol = "key"
+        up.append("select-shadows-key")
+    elif r2 < 0.5:
         args += ["--select", ".g=g", "--select", ".k=k"]
         up.append("select")
         if rng.random() < 0.5:
@@ -67,7 +79,7 @@ def gen_unit(rng):
         up.append("take")
     out = rng.choice([[], [], ["--style", "consise"], ["--style", "pretty"], ["-o", "text"]])
     unit = {"input": records.to_input(recs, rng), "args": args, "out": out, "upstream": sorted(set(up)),
-            "mode": rng.choice(["group", "group", "merge"])}
+            "mode": rng.choice(["group", "group", "merge"]), "keycol": keycol}
     if rng.random() < 0.25:
         # the same records given as 1-3 files (cut between records) instead of stdin
         texts = [jm.dumps(r).encode() for r in recs]
@@ -124,7 +136,7 @@ def run_unit(ctx, unit):
         want = {}
         dropped = 0
         for r in R:
-            k = r.get("g") if isinstance(r, dict) else None
+            k = r.get(unit.get("keycol", "g")) if isinstance(r, dict) else None
             if isinstance(k, str):
                 want.setdefault(k, []).append(r)
             else:
